@@ -44,14 +44,17 @@ def merged(steps):
     return out
 
 
-def distribute(rng, info, neutral, *, stale=None, avoid=(), late=('tag', 'recursive'), py_ok=True, p_late=0.75):
+def distribute(rng, info, neutral, *, stale=None, avoid=(), late=('tag', 'recursive'), py_ok=True, p_late=0.75, together=None):
     """-> label of the binding history chosen (for coverage counters).
     `neutral`: candidate default-spelling settings; those whose key is in `avoid` (settings the enclosing root gives another value) or that
     contradict the final settings are not used.  `stale`: {setting: stale value} that an EARLIER binding may give when a later one
-    holds the final value.  `late`: settings that go into the LAST binding with probability `p_late`."""
+    holds the final value.  `late`: settings that go into the LAST binding with probability `p_late`.
+    `together`: {setting: companion settings} — every binding that carries `setting` spells the companions as well.  Used for
+    v1_key_case -> v1=True: given apart they are a genuine defect of the unchanged library, kept out for now
+    (/tmp/ag/Q/findings/v1-key-case-bound-apart-from-v1.py: the key case lands on the loader class chosen by that binding's own v1 flag)."""
     final = {k: v for k, v in (info.get('meta') or {}).items() if v is not None}
     wizard = info.get('wizard', True)
-    assert wizard in (True, False), wizard
+    assert wizard in (True, False, 'file'), wizard
     label = []
     if wizard is True and py_ok and rng.random() < 0.4:
         info['wizard'] = wizard = 'py'        # JSONPyWizard: DumpMeta(key_transform='NONE') is bound first, the inner Meta second
@@ -70,9 +73,13 @@ def distribute(rng, info, neutral, *, stale=None, avoid=(), late=('tag', 'recurs
     for sl in slots:
         if usable and (not sl or rng.random() < 0.3):
             sl.update((k, v) for k, v in rng.choice(usable).items() if k not in sl)
+    for sl in slots:
+        for k, comp in (together or {}).items():
+            if k in sl:
+                sl.update(comp)
     steps = []
     for j, sl in enumerate(slots):
-        if j == 0 and wizard in (True, 'py') and (wizard == 'py' or rng.random() < 0.5):
+        if j == 0 and wizard in (True, 'py', 'file') and (wizard == 'py' or rng.random() < 0.5):
             via = 'inner'
         else:
             via = _via(rng, sl)
